@@ -57,6 +57,19 @@ CLAIMED.update({
              note="Trusted: Coq kernel; goextract (dispatch table + statement order); harness. One sender (receive order = send order; the concurrent half is C01). No axioms."),
 })
 
+CONC_NOTE = "Trusted: Coq kernel; the L1 model Model/Conc.v (hand-written interleaving transition system of eventLoop / Send / handleCommands / the sequenceMsg goroutine with rendezvous channels and a ghost event log) tied to the source by goextract facts (p.msgs, cmds unbuffered; p.msgs received only in eventLoop; statement order of the loop; bodies of Send, handleCommands, Batch, Sequence and of the BatchMsg / sequenceMsg cases compared with the shapes the model mirrors); Go harness (recording model, goroutine ids, logical clock). Assumed: Go channel/select semantics. The theorems quantify over ALL programs (model type, Update, command results), sender scripts and schedules (lists of labels, disabled labels skipped). No axioms."
+CLAIMED.update({
+ "C01": dict(design="5.3/C01", technique="Coq proof by invariants over all schedules of the L1 concurrent transition system (induction over the schedule, one preservation case per label); K1 ties on channel buffering / receive sites / loop statement order; real Programs with up to 32 concurrent senders: Spec.ConcSpec predicates evaluated in Coq on the real logs",
+             text="C01_model_threaded / C01_fold (the model is the fold of Update over the messages passed to it; nothing else changes it), C01_updates_are_receipts (Update gets exactly the updatable messages received, each right after its receipt, none invented or repeated), C01_lossless(_general) (received = updated + the one in flight), C01_per_sender (taken ++ still-held = script, per sender), C01_single_loop_partial. Real runs: 1..32 senders x up to 20 messages, slow/yielding Update, command traffic, filter, GOMAXPROCS 1..16, complete / quit / Kill midway: exactly-once, per-sender order, no overlap and one goroutine for Init/Update/View/filter, model threading, Run returns the last model.",
+             note=CONC_NOTE + " Mutual exclusion of callbacks is structural in the model (one loop thread): a Go data race cannot be exhibited by the theorem; that half is carried by goroutine ids and interval overlap on real runs (named _partial)."),
+ "C02": dict(design="5.3/C02", technique="Coq proof by counting invariants over all schedules of the L1 model (owed = handed + pending; per-goroutine delivery automaton) and a constructive non-interference lemma; real Programs with random command trees incl. blocking and never-returning commands and scratch-buffer models: Spec.ConcSpec predicates evaluated in Coq on the real logs",
+             text="C02_handed_are_owed, C02_all_handed_when_idle (every non-nil command returned by Init/Update or contained in a received BatchMsg at any depth is handed over exactly once by the time the loop is back at its select), C02_started_once (one goroutine per hand-over, never the loop), C02_results_once (result delivered at most once, after the command returned, and it is that command's result), C02_nil_never_reaches_update, C02_noninterference (from ANY state the loop alone reaches its select in <= 4 + batch length own steps and serves a waiting sender: no command step is needed).",
+             note=CONC_NOTE),
+ "C03": dict(design="5.3/C03", technique="Coq proof: a walk automaton over the ghost log is an invariant of every sequence goroutine over all schedules of the L1 model; real Programs with random sequences under traffic and with the loop held busy: sequences_ok evaluated in Coq on the projected log + interval-bracketed receipt check",
+             text="C03_sequences_ok (elements strictly in order, nil entries skipped, the next element starts only after the previous element's message - every message of its batch - was taken by the loop), C03_next_after_receipt, C03_update_order, C03_nil_does_not_stall, C03_group_done_steps. Real runs: random sequences of plain commands / batches / nil entries / nil results with random durations and unrelated traffic, and variants where the loop is held inside an unrelated Update while an element finishes.",
+             note=CONC_NOTE + " On real runs the instant of receipt is not observable; it is bracketed by the loop goroutine's callback intervals."),
+})
+
 def main():
     here = os.path.dirname(os.path.dirname(os.path.abspath(__file__)))
     props = [json.loads(l) for l in open(os.path.join(here, "properties.jsonl"))]
